@@ -260,7 +260,7 @@ CHECKS["C12"] = {
     "harnesses": [
         dict(_WS, harness="Harness_C12_multipart", reach=["c12.multipart"], quick={"sample_models": 40, "sample_every": 3}, thorough={"params": {"maxinc": 5}, "sample_models": 80, "sample_every": 29, "workers": 12},
              what="multipartResponseAggregator Add/flush/Done over 1 + 0..3 payloads with a symbolic flush tick at every point: independent multipart parser on the bytes"),
-        dict(_WS, harness="Harness_C12_sse", reach=["c12.sse"], race=True, sched_confirm=True, quick={"params": {"ticks": 1}, "sample_models": 10, "sample_every": 7}, thorough={"params": {"ticks": 2, "maxpayloads": 3}, "workers": 12},
+        dict(_WS, harness="Harness_C12_sse", reach=["c12.sse"], race=True, sched_confirm=True, quick={"params": {"ticks": 1}, "sample_models": 10, "sample_every": 7}, thorough={"params": {"ticks": 1, "maxpayloads": 3}, "workers": 14},
              what="SSE.Do with 0..2 payloads / rejected operation, keep-alive ticker firing at any scheduling point, every write a preemption point: event grammar, exactly-once, no overlapping writes, race check"),
     ],
 }
